@@ -19,17 +19,6 @@ Proof. intros H10 H13. unfold write_literal. rewrite H10, H13. reflexivity. Qed.
 Lemma ends_with_push c item b x : ends_with c (push_bytes (item ++ [b]) x) = N.eqb b c.
 Proof. unfold ends_with, push_bytes. cbn [rbuf]. rewrite rev_app_distr. reflexivity. Qed.
 
-Lemma simple_text_last_byte v : simple_text v = true ->
-  exists v0 b, v = v0 ++ [b] /\ N.eqb b 10 = false /\ N.eqb b 13 = false.
-Proof.
-  intros Hv. destruct (simple_text_spec v Hv) as (b & r & Ev & _ & _ & Hline & _).
-  assert (Hne : v <> []) by (rewrite Ev; discriminate).
-  exists (removelast v), (last v 0%N). split; [apply app_removelast_last, Hne|].
-  assert (Hin : In (last v 0%N) v) by (apply last_in, Hne).
-  unfold text_line in Hline. rewrite forallb_forall in Hline. apply Hline in Hin.
-  apply wf_text_byte_spec in Hin as (_ & _ & H13 & H10). split; assumption.
-Qed.
-
 Lemma wf_identifier_last id : wf_identifier id = true ->
   exists i0 b, id = i0 ++ [b] /\ N.eqb b 10 = false /\ N.eqb b 13 = false.
 Proof.
@@ -43,22 +32,188 @@ Proof.
   unfold is_id_char, is_alpha, is_digit in Hl. split; lia.
 Qed.
 
-(* "id = text\n" : what the serializer writes for a message of the fragment, from a line start at level 0 *)
-Lemma serialize_simple_value v x :
-  simple_text v = true -> ends_with 10 x = false -> ends_with 13 x = false ->
-  serialize_pattern (Pattern [TextElement v]) x =
-  Done (Writer (rev v ++ 32%N :: rbuf x) (indent_level x)).
+(* ---- writing pieces that contain no line feed ---- *)
+Definition lf_free (l : bytes) : Prop := existsb (N.eqb 10) l = false.
+
+(* from a buffer that does not end in a line feed, the action appends exactly `out` and keeps the level *)
+Definition writes (a : W) (out : bytes) : Prop :=
+  forall x, ends_with 10 x = false ->
+            a x = Done (Writer (rev out ++ rbuf x) (indent_level x)) /\
+            ends_with 10 (Writer (rev out ++ rbuf x) (indent_level x)) = false.
+
+Lemma ends_with_rev_lf_free out r lvl :
+  lf_free out -> ends_with 10 (Writer r lvl) = false -> ends_with 10 (Writer (rev out ++ r) lvl) = false.
 Proof.
-  intros Hv H10 H13. destruct (simple_text_spec v Hv) as (b & r & Ev & _ & _ & Hline & _).
-  cbn [serialize_pattern serialize_element].
-  replace (starts_on_new_line (Pattern [TextElement v])) with false.
-  2:{ unfold starts_on_new_line, is_multiline. cbn [pattern_elements existsb].
-      unfold contains_lf. rewrite (text_line_no_lf v Hline). rewrite andb_false_r. reflexivity. }
-  unfold wseq, lit. cbn [bytes_of_string].
-  rewrite (write_literal_mid _ x H10 H13). cbn [obind]. unfold indent. cbn [obind].
-  unfold push_bytes at 1. cbn [rev app rbuf indent_level].
-  rewrite write_literal_mid by reflexivity. cbn [obind]. unfold wskip, dedent, push_bytes.
-  cbn [obind rbuf indent_level]. reflexivity.
+  intros Hout Hr. destruct out as [|b0 t] using rev_ind; [exact Hr|].
+  rewrite rev_app_distr. unfold ends_with. cbn [rbuf rev app].
+  unfold lf_free in Hout. rewrite existsb_app in Hout. apply orb_false_elim in Hout as [_ Hb].
+  cbn [existsb] in Hb. rewrite orb_false_r, N.eqb_sym in Hb. exact Hb.
+Qed.
+
+Lemma writes_literal item : lf_free item -> writes (write_literal item) item.
+Proof.
+  intros Hitem x H10. unfold write_literal. rewrite H10.
+  replace (ends_with 13 x && match item with [] => false | b :: _ => N.eqb b 10 end) with false.
+  2:{ destruct item as [|b t]; [rewrite andb_false_r; reflexivity|]. unfold lf_free in Hitem.
+      cbn [existsb] in Hitem. apply orb_false_elim in Hitem as [Hb _]. rewrite N.eqb_sym in Hb. rewrite Hb, andb_false_r. reflexivity. }
+  split; [reflexivity|]. destruct x as [r lvl]. cbn [rbuf indent_level]. apply ends_with_rev_lf_free; assumption.
+Qed.
+
+Lemma writes_lit s : lf_free (bytes_of_string s) -> writes (lit s) (bytes_of_string s).
+Proof. apply writes_literal. Qed.
+
+Lemma writes_skip : writes wskip [].
+Proof. intros x H. split; [destruct x; reflexivity | destruct x; exact H]. Qed.
+
+Lemma writes_seq a b o1 o2 : writes a o1 -> writes b o2 -> writes (a >> b) (o1 ++ o2).
+Proof.
+  intros Ha Hb x H. destruct (Ha x H) as [E1 H1]. destruct (Hb _ H1) as [E2 H2].
+  cbn [rbuf indent_level] in E2, H2. unfold wseq. rewrite E1. cbn [obind].
+  rewrite rev_app_distr, <- app_assoc. split; [exact E2 | exact H2].
+Qed.
+
+Lemma lf_free_app a b : lf_free a -> lf_free b -> lf_free (a ++ b).
+Proof. unfold lf_free. intros Ha Hb. rewrite existsb_app, Ha, Hb. reflexivity. Qed.
+
+Lemma lf_free_forall (P : N -> bool) l : (forall b, P b = true -> N.eqb b 10 = false) -> forallb P l = true -> lf_free l.
+Proof.
+  intros HP Hl. unfold lf_free. induction l as [|b t IH]; [reflexivity|].
+  cbn [forallb] in Hl. apply andb_prop in Hl as [Hb Ht]. cbn [existsb]. rewrite N.eqb_sym, (HP b Hb), (IH Ht). reflexivity.
+Qed.
+
+Lemma wf_identifier_lf_free id : wf_identifier id = true -> lf_free id.
+Proof.
+  intros Hid. destruct id as [|b r]; [reflexivity|]. cbn [wf_identifier] in Hid. apply andb_prop in Hid as [Hb Hr].
+  apply (lf_free_forall is_id_char).
+  - intros x Hx. unfold is_id_char, is_alpha, is_digit in Hx. lia.
+  - cbn [forallb]. rewrite Hr, andb_true_r. unfold is_id_char. rewrite Hb. reflexivity.
+Qed.
+
+Lemma digits_lf_free l : forallb is_ascii_digit l = true -> lf_free l.
+Proof. apply lf_free_forall. intros x Hx. unfold is_ascii_digit, in_rng in Hx. lia. Qed.
+
+Lemma wf_number_lf_free v : wf_number v = true -> lf_free v.
+Proof.
+  intros Hv. destruct (wf_number_shape v Hv) as [neg i f Hi1 Hi2 Hf].
+  apply lf_free_app; [destruct neg; reflexivity|]. apply lf_free_app; [apply digits_lf_free, Hi2|].
+  destruct f as [fd|]; [|reflexivity]. destruct Hf as [_ Hf2].
+  change (46%N :: fd) with ([46%N] ++ fd). apply lf_free_app; [reflexivity | apply digits_lf_free, Hf2].
+Qed.
+
+Lemma wf_string_fuel_lf_free m : forall s, wf_string_fuel m s = true -> lf_free s.
+Proof.
+  induction m as [|m IH]; intros s H; [discriminate|]. cbn [wf_string_fuel] in H.
+  destruct s as [|b r]; [reflexivity|].
+  destruct (N.eqb b 92) eqn:E92.
+  - apply N.eqb_eq in E92. subst b. destruct r as [|c r2]; [discriminate|].
+    assert (Hc : N.eqb 10 c = false).
+    { destruct (N.eqb c 92 || N.eqb c 34 || N.eqb c 123) eqn:E1.
+      - destruct (N.eqb_spec 10 c) as [<-|]; [discriminate E1 | reflexivity].
+      - destruct (N.eqb c 117) eqn:E2; [apply N.eqb_eq in E2; subst c; reflexivity|].
+        destruct (N.eqb c 85) eqn:E3; [apply N.eqb_eq in E3; subst c; reflexivity | discriminate]. }
+    unfold lf_free. cbn [existsb]. change (N.eqb 10 92) with false. rewrite Hc. cbn [orb].
+    destruct (N.eqb c 92 || N.eqb c 34 || N.eqb c 123); [apply (IH r2 H)|].
+    assert (Hhex : forall k, forallb is_hex (firstn k r2) && Nat.eqb (length (firstn k r2)) k && wf_string_fuel m (skipn k r2) = true ->
+                             existsb (N.eqb 10) r2 = false).
+    { intros k Hk. apply andb_prop in Hk as [Hk Hrest]. apply andb_prop in Hk as [Hhex _].
+      rewrite <- (firstn_skipn k r2), existsb_app. rewrite (IH _ Hrest), orb_false_r.
+      apply (lf_free_forall is_hex); [|exact Hhex]. intros x Hx. unfold is_hex, is_digit in Hx. lia. }
+    destruct (N.eqb c 117); [apply (Hhex 4 H)|]. destruct (N.eqb c 85); [apply (Hhex 6 H) | discriminate].
+  - destruct (N.eqb b 34 || N.eqb b 10) eqn:E; [discriminate|]. apply orb_false_elim in E as [_ E10].
+    unfold lf_free. cbn [existsb]. rewrite N.eqb_sym, E10. apply (IH r H).
+Qed.
+
+(* ---- inline expressions, elements, patterns of the fragment ---- *)
+Lemma writes_simple_inline i : simple_inline i = true -> writes (serialize_inline_expression i) (inline_text i).
+Proof.
+  destruct i as [s | v | id args | id att | id att args | id | e]; cbn [simple_inline]; intros Hi; try discriminate Hi;
+    cbn [serialize_inline_expression inline_text].
+  - apply andb_prop in Hi as [Hwf _].
+    change (34%N :: s ++ [34%N]) with ([34%N] ++ s ++ [34%N]).
+    apply writes_seq; [apply writes_lit; reflexivity|].
+    apply writes_seq; [apply writes_literal, (wf_string_fuel_lf_free _ _ Hwf) | apply writes_lit; reflexivity].
+  - apply writes_literal, wf_number_lf_free, Hi.
+  - destruct att as [a|].
+    + apply andb_prop in Hi as [H1 H2].
+      apply writes_seq; [apply writes_literal, wf_identifier_lf_free, H1|].
+      change (46%N :: a) with ([46%N] ++ a).
+      apply writes_seq; [apply writes_lit; reflexivity | apply writes_literal, wf_identifier_lf_free, H2].
+    + apply writes_seq; [apply writes_literal, wf_identifier_lf_free, Hi | apply writes_skip].
+  - destruct att; [discriminate|]. destruct args; [discriminate|].
+    replace (45%N :: id) with ([45%N] ++ id ++ [] ++ []) by (cbn [app]; rewrite app_nil_r; reflexivity).
+    apply writes_seq; [apply writes_lit; reflexivity|].
+    apply writes_seq; [apply writes_literal, wf_identifier_lf_free, Hi|].
+    apply writes_seq; apply writes_skip.
+  - change (36%N :: id) with ([36%N] ++ id).
+    apply writes_seq; [apply writes_lit; reflexivity | apply writes_literal, wf_identifier_lf_free, Hi].
+Qed.
+
+Definition element_text (el : pattern_element) : bytes :=
+  match el with
+  | TextElement v => v
+  | PlaceableElement (Inline i) => [123; 32]%N ++ inline_text i ++ [32; 125]%N
+  | _ => []
+  end.
+Definition line_text (els : list pattern_element) : bytes := concat (map element_text els).
+
+(* the element loop of serialize_pattern as a function of the list *)
+Fixpoint ser_els (l : list pattern_element) : W :=
+  match l with
+  | [] => wskip
+  | el :: r => serialize_element el >> ser_els r
+  end.
+
+Lemma serialize_pattern_els els :
+  serialize_pattern (Pattern els) =
+  ((if starts_on_new_line (Pattern els) then newline >> indent else lit " " >> indent) >> ser_els els >> dedent).
+Proof. reflexivity. Qed.
+
+Lemma writes_simple_elements els : forall prev, simple_elements els prev = true -> writes (ser_els els) (line_text els).
+Proof.
+  induction els as [|el r IH]; intros prev Hs; [apply writes_skip|].
+  unfold line_text. cbn [map concat ser_els].
+  destruct el as [v | [sel vs | i]]; cbn [simple_elements] in Hs; try discriminate Hs.
+  - apply andb_prop in Hs as [Hs Hr]. apply andb_prop in Hs as [_ Hv].
+    destruct (inner_text_spec v Hv) as (b & t & _ & _ & Hline).
+    apply writes_seq; [|apply (IH true Hr)]. cbn [serialize_element element_text].
+    apply writes_literal, text_line_no_lf, Hline.
+  - apply andb_prop in Hs as [Hi Hr].
+    apply writes_seq; [|apply (IH false Hr)]. cbn [element_text].
+    assert (Hw : writes (lit "{ " >> serialize_expression (Inline i) >> lit " }") ([123; 32]%N ++ inline_text i ++ [32; 125]%N)).
+    { apply writes_seq; [apply writes_lit; reflexivity|].
+      apply writes_seq; [apply (writes_simple_inline i Hi) | apply writes_lit; reflexivity]. }
+    destruct i as [s | v | id args | id att | id att args | id | e]; try discriminate Hi; exact Hw.
+Qed.
+
+Lemma simple_elements_not_multiline els : forall prev, simple_elements els prev = true ->
+  existsb (fun el => match el with TextElement v => contains_lf v | PlaceableElement e => is_select_expr e end) els = false.
+Proof.
+  induction els as [|el r IH]; intros prev Hs; [reflexivity|]. cbn [existsb].
+  destruct el as [v | [sel vs | i]]; cbn [simple_elements] in Hs; try discriminate Hs.
+  - apply andb_prop in Hs as [Hs Hr]. apply andb_prop in Hs as [_ Hv].
+    destruct (inner_text_spec v Hv) as (b & t & _ & _ & Hline).
+    rewrite (IH true Hr). unfold contains_lf. rewrite (text_line_no_lf v Hline). reflexivity.
+  - apply andb_prop in Hs as [Hi Hr]. rewrite (IH false Hr).
+    destruct i; try discriminate Hi; reflexivity.
+Qed.
+
+(* " " and the line: what serialize_pattern writes for a one-line pattern, from the middle of a line *)
+Lemma serialize_simple_pattern els x :
+  simple_pattern (Pattern els) = true -> ends_with 10 x = false ->
+  serialize_pattern (Pattern els) x = Done (Writer (rev (line_text els) ++ 32%N :: rbuf x) (indent_level x)) /\
+  ends_with 10 (Writer (rev (line_text els) ++ 32%N :: rbuf x) (indent_level x)) = false.
+Proof.
+  intros Hp H10. pose proof (simple_pattern_elements els Hp) as Hs.
+  rewrite serialize_pattern_els.
+  replace (starts_on_new_line (Pattern els)) with false.
+  2:{ unfold starts_on_new_line, is_multiline. cbn [pattern_elements].
+      rewrite (simple_elements_not_multiline els false Hs), andb_false_r. reflexivity. }
+  destruct (writes_lit " " eq_refl x H10) as [E1 H1]. cbn [bytes_of_string rev app] in E1, H1.
+  unfold wseq at 1. unfold wseq at 1. rewrite E1. cbn [obind]. unfold indent at 1. cbn [obind rbuf indent_level].
+  destruct (writes_simple_elements els false Hs (Writer (N_of_ascii " " :: rbuf x) (S (indent_level x))) H1) as [E2 H2].
+  cbn [rbuf indent_level] in E2, H2.
+  unfold wseq. rewrite E2. cbn [obind]. unfold dedent. cbn [indent_level rbuf].
+  split; [reflexivity|]. exact H2.
 Qed.
 
 Lemma newline_plain x : ends_with 13 x = false -> newline x = Done (Writer (10%N :: rbuf x) (indent_level x)).
@@ -70,16 +225,43 @@ Proof. unfold ends_with. cbn [rbuf]. rewrite rev_app_distr. reflexivity. Qed.
 (* ---- attributes ---- *)
 Definition mid_line (x : writer) : Prop := ends_with 10 x = false /\ ends_with 13 x = false.
 
-Lemma mid_line_text v r lvl : simple_text v = true -> mid_line (Writer (rev v ++ r) lvl).
+Lemma element_text_last el prev r : simple_elements (el :: r) prev = true ->
+  exists l0 b, element_text el = l0 ++ [b] /\ N.eqb b 10 = false /\ N.eqb b 13 = false.
 Proof.
-  intros Hv. destruct (simple_text_last_byte v Hv) as (v0 & vb & -> & H10 & H13).
-  split; rewrite ends_with_rev_app; assumption.
+  intros Hs. destruct el as [v | [sel vs | i]]; cbn [simple_elements] in Hs; try discriminate Hs.
+  - apply andb_prop in Hs as [Hs _]. apply andb_prop in Hs as [_ Hv].
+    destruct (inner_text_spec v Hv) as (b & t & Ev & _ & Hline).
+    assert (Hne : v <> []) by (rewrite Ev; discriminate).
+    exists (removelast v), (last v 0%N). split; [apply app_removelast_last, Hne|].
+    pose proof (last_in v 0%N Hne) as Hin. unfold text_line in Hline. rewrite forallb_forall in Hline.
+    apply Hline in Hin. apply wf_text_byte_spec in Hin as (_ & _ & H13 & H10). split; assumption.
+  - cbn [element_text]. exists ([123; 32]%N ++ inline_text i ++ [32%N]), 125%N.
+    split; [rewrite <- !app_assoc; reflexivity | split; reflexivity].
+Qed.
+
+Lemma line_text_mid_line els : forall prev r lvl, els <> [] -> simple_elements els prev = true ->
+  mid_line (Writer (rev (line_text els) ++ r) lvl).
+Proof.
+  induction els as [|el rest IH]; intros prev r lvl Hne Hs; [congruence|].
+  unfold line_text. cbn [map concat]. rewrite rev_app_distr, <- app_assoc.
+  destruct rest as [|el2 rest2].
+  - cbn [map concat rev app]. destruct (element_text_last el prev [] Hs) as (l0 & b & -> & H10 & H13).
+    split; rewrite ends_with_rev_app; assumption.
+  - assert (Hs' : exists prev', simple_elements (el2 :: rest2) prev' = true).
+    { destruct el as [v | [sel vs | i]]; cbn [simple_elements] in Hs; try discriminate Hs.
+      - apply andb_prop in Hs as [_ Hs]. exists true. exact Hs.
+      - apply andb_prop in Hs as [_ Hs]. exists false. exact Hs. }
+    destruct Hs' as [prev' Hs']. apply (IH prev' _ lvl ltac:(discriminate) Hs').
+Qed.
+
+Lemma mid_line_pattern els r lvl : simple_pattern (Pattern els) = true -> mid_line (Writer (rev (line_text els) ++ r) lvl).
+Proof.
+  intros Hp. destruct (simple_pattern_parts els Hp) as (Hne & Hs & _). apply (line_text_mid_line els false r lvl Hne Hs).
 Qed.
 
 Definition attr_text (a : attribute) : bytes :=
   match attr_value a with
-  | Pattern [TextElement v] => [10; 32; 32; 32; 32; 46]%N ++ attr_id a ++ [32; 61; 32]%N ++ v
-  | _ => []
+  | Pattern els => [10; 32; 32; 32; 32; 46]%N ++ attr_id a ++ [32; 61; 32]%N ++ line_text els
   end.
 Definition attrs_text (attrs : list attribute) : bytes := concat (map attr_text attrs).
 
@@ -87,7 +269,7 @@ Lemma serialize_simple_attribute a x :
   simple_attribute a = true -> mid_line x -> indent_level x = 1 ->
   (newline >> serialize_attribute a) x = Done (Writer (rev (attr_text a) ++ rbuf x) 1).
 Proof.
-  intros Ha [H10 H13] Hl. destruct (simple_attribute_spec a Ha) as (aid & v & -> & Hid & Hv).
+  intros Ha [H10 H13] Hl. destruct (simple_attribute_spec a Ha) as (aid & els & -> & Hid & Hv).
   destruct (wf_identifier_last aid Hid) as (i0 & ib & Eid & Hib10 & Hib13).
   unfold wseq at 1. rewrite (newline_plain x H13). cbn [obind].
   unfold serialize_attribute. cbn [attr_id attr_value].
@@ -101,15 +283,16 @@ Proof.
   unfold wseq at 1. unfold lit. cbn [bytes_of_string].
   rewrite write_literal_mid by (rewrite Eid, ends_with_rev_app; assumption).
   cbn [obind]. unfold push_bytes. cbn [rev app rbuf indent_level].
-  rewrite serialize_simple_value by (try exact Hv; reflexivity).
+  match goal with |- serialize_pattern _ ?y = _ => destruct (serialize_simple_pattern els y Hv eq_refl) as [Ep _] end.
+  rewrite Ep.
   cbn [rbuf indent_level attr_text attr_value attr_id]. do 2 f_equal.
   rewrite !rev_app_distr. cbn [rev app]. rewrite <- !app_assoc. reflexivity.
 Qed.
 
 Lemma attr_text_mid_line a r lvl : simple_attribute a = true -> mid_line (Writer (rev (attr_text a) ++ r) lvl).
 Proof.
-  intros Ha. destruct (simple_attribute_spec a Ha) as (aid & v & -> & Hid & Hv).
-  cbn [attr_text attr_value attr_id]. rewrite !app_assoc, rev_app_distr, <- app_assoc. apply mid_line_text, Hv.
+  intros Ha. destruct (simple_attribute_spec a Ha) as (aid & els & -> & Hid & Hv).
+  cbn [attr_text attr_value attr_id]. rewrite !app_assoc, rev_app_distr, <- app_assoc. apply mid_line_pattern, Hv.
 Qed.
 
 Lemma serialize_simple_attrs_loop attrs : forall x,
@@ -215,11 +398,11 @@ Qed.
 
 Definition simple_entry_text (wrote : bool) (e : entry) : bytes :=
   match e with
-  | Message id (Some (Pattern [TextElement v])) attrs _ =>
-      id ++ [32; 61; 32]%N ++ v ++ attrs_text attrs ++ [10%N]
+  | Message id (Some (Pattern els)) attrs _ =>
+      id ++ [32; 61; 32]%N ++ line_text els ++ attrs_text attrs ++ [10%N]
   | Message id None attrs _ => id ++ [32; 61]%N ++ attrs_text attrs ++ [10%N]
-  | Term id (Pattern [TextElement v]) attrs _ =>
-      45%N :: id ++ [32; 61; 32]%N ++ v ++ attrs_text attrs ++ [10%N]
+  | Term id (Pattern els) attrs _ =>
+      45%N :: id ++ [32; 61; 32]%N ++ line_text els ++ attrs_text attrs ++ [10%N]
   | CommentEntry c => lead wrote ++ comment_text [35%N] (content c) ++ [10%N]
   | GroupComment c => lead wrote ++ comment_text [35; 35]%N (content c) ++ [10%N]
   | ResourceComment c => lead wrote ++ comment_text [35; 35; 35]%N (content c) ++ [10%N]
@@ -238,7 +421,7 @@ Proof.
         reflexivity).
   all: apply andb_prop in He as [He Hattrs]; apply andb_prop in He as [Hid Hp];
     destruct (wf_identifier_last id Hid) as (i0 & ib & Eid & Hib10 & Hib13).
-  - destruct (simple_pattern_spec p Hp) as [v [-> Hv]].
+  - destruct (simple_pattern_spec p Hp) as [els [-> Hv]].
     unfold serialize_entry. cbn [is_junk negb orb]. rewrite orb_true_r.
     unfold serialize_message, serialize_opt_comment.
     unfold wseq at 1. unfold wskip at 1. cbn [obind].
@@ -246,10 +429,11 @@ Proof.
     unfold wseq at 1. unfold lit. cbn [bytes_of_string].
     rewrite write_literal_mid by (rewrite Eid, ends_with_rev_app; assumption).
     cbn [obind]. unfold push_bytes. cbn [rev app rbuf indent_level].
-    unfold wseq at 1. rewrite serialize_simple_value by (try exact Hv; reflexivity).
-    cbn [obind rbuf indent_level].
+    unfold wseq at 1.
+    match goal with |- context [serialize_pattern _ ?y] => destruct (serialize_simple_pattern els y Hv eq_refl) as [Ep _] end.
+    rewrite Ep. cbn [obind rbuf indent_level].
     match goal with |- context [(serialize_attributes attrs >> newline) ?x] =>
-      destruct (serialize_simple_attributes attrs x Hattrs (mid_line_text v _ 0 Hv) eq_refl) as [Ea [_ Hm13]] end.
+      destruct (serialize_simple_attributes attrs x Hattrs (mid_line_pattern els _ 0 Hv) eq_refl) as [Ea [_ Hm13]] end.
     unfold wseq. rewrite Ea. cbn [obind].
     rewrite newline_plain by exact Hm13.
     cbn [obind rbuf indent_level simple_entry_text]. do 3 f_equal.
@@ -268,7 +452,7 @@ Proof.
     rewrite newline_plain by exact Hm13.
     cbn [obind rbuf indent_level simple_entry_text]. do 3 f_equal.
     rewrite !rev_app_distr. cbn [rev app]. rewrite <- !app_assoc. reflexivity.
-  - destruct (simple_pattern_spec p Hp) as [v [-> Hv]].
+  - destruct (simple_pattern_spec p Hp) as [els [-> Hv]].
     unfold serialize_entry. cbn [is_junk negb orb]. rewrite orb_true_r.
     unfold serialize_term, serialize_opt_comment.
     unfold wseq at 1. unfold wskip at 1. cbn [obind].
@@ -279,10 +463,11 @@ Proof.
     unfold wseq at 1. unfold lit. cbn [bytes_of_string].
     rewrite write_literal_mid by (rewrite Eid, ends_with_rev_app; assumption).
     cbn [obind]. unfold push_bytes. cbn [rev app rbuf indent_level].
-    unfold wseq at 1. rewrite serialize_simple_value by (try exact Hv; reflexivity).
-    cbn [obind rbuf indent_level].
+    unfold wseq at 1.
+    match goal with |- context [serialize_pattern _ ?y] => destruct (serialize_simple_pattern els y Hv eq_refl) as [Ep _] end.
+    rewrite Ep. cbn [obind rbuf indent_level].
     match goal with |- context [(serialize_attributes attrs >> newline) ?x] =>
-      destruct (serialize_simple_attributes attrs x Hattrs (mid_line_text v _ 0 Hv) eq_refl) as [Ea [_ Hm13]] end.
+      destruct (serialize_simple_attributes attrs x Hattrs (mid_line_pattern els _ 0 Hv) eq_refl) as [Ea [_ Hm13]] end.
     unfold wseq. rewrite Ea. cbn [obind].
     rewrite newline_plain by exact Hm13.
     cbn [obind rbuf indent_level simple_entry_text]. do 3 f_equal.
@@ -301,11 +486,11 @@ Proof.
   destruct e as [id [p|] attrs [|]|id p attrs [|]|c|c|c|]; try discriminate; cbn [simple_entry]; intros He.
   4-6: (cbn [simple_entry_text]; eexists; rewrite app_assoc; reflexivity).
   all: apply andb_prop in He as [He _]; apply andb_prop in He as [_ Hp].
-  - destruct (simple_pattern_spec p Hp) as [v [-> Hv]]. cbn [simple_entry_text].
-    exists (id ++ [32; 61; 32]%N ++ v ++ attrs_text attrs). norm_app. reflexivity.
+  - destruct (simple_pattern_spec p Hp) as [els [-> Hv]]. cbn [simple_entry_text].
+    exists (id ++ [32; 61; 32]%N ++ line_text els ++ attrs_text attrs). norm_app. reflexivity.
   - cbn [simple_entry_text]. exists (id ++ [32; 61]%N ++ attrs_text attrs). norm_app. reflexivity.
-  - destruct (simple_pattern_spec p Hp) as [v [-> Hv]]. cbn [simple_entry_text].
-    exists (45%N :: id ++ [32; 61; 32]%N ++ v ++ attrs_text attrs). norm_app. reflexivity.
+  - destruct (simple_pattern_spec p Hp) as [els [-> Hv]]. cbn [simple_entry_text].
+    exists (45%N :: id ++ [32; 61; 32]%N ++ line_text els ++ attrs_text attrs). norm_app. reflexivity.
 Qed.
 
 Lemma serialize_simple_resource with_junk t : forall st,
@@ -336,16 +521,30 @@ Proof.
 Qed.
 
 (* the serializer's text is one of the layouts of the tree *)
+Lemma line_text_layout els : forall prev, simple_elements els prev = true -> line_layout els (line_text els).
+Proof.
+  induction els as [|el r IH]; intros prev Hs; [constructor|].
+  unfold line_text. cbn [map concat].
+  destruct el as [v | [sel vs | i]]; cbn [simple_elements] in Hs; try discriminate Hs.
+  - apply andb_prop in Hs as [_ Hr]. cbn [element_text]. constructor. apply (IH true Hr).
+  - apply andb_prop in Hs as [_ Hr]. cbn [element_text].
+    replace (([123; 32]%N ++ inline_text i ++ [32; 125]%N) ++ concat (map element_text r))
+      with (123%N :: sp 1 ++ inline_text i ++ sp 1 ++ 125%N :: line_text r)
+      by (unfold line_text; cbn [sp repeat app]; rewrite <- !app_assoc; reflexivity).
+    constructor; [apply all_blank_sp | apply all_blank_sp | apply (IH false Hr)].
+Qed.
+
 Lemma attrs_text_layout attrs : forallb simple_attribute attrs = true -> attrs_layout attrs (attrs_text attrs).
 Proof.
   induction attrs as [|a r IH]; intros Hs; [constructor|].
   cbn [forallb] in Hs. apply andb_prop in Hs as [Ha Hr].
   unfold attrs_text. cbn [map concat]. constructor; [|apply IH, Hr].
-  destruct (simple_attribute_spec a Ha) as (aid & v & -> & _ & _).
+  destruct (simple_attribute_spec a Ha) as (aid & els & -> & _ & Hp).
   cbn [attr_text attr_value attr_id].
-  replace ([10; 32; 32; 32; 32; 46]%N ++ aid ++ [32; 61; 32]%N ++ v)
-    with (lf ++ sp 4 ++ 46%N :: aid ++ sp 1 ++ 61%N :: sp 1 ++ v) by reflexivity.
-  apply (atl aid v lf 3 1 (sp 1 ++ v)); [left; reflexivity | apply vl_inline].
+  replace ([10; 32; 32; 32; 32; 46]%N ++ aid ++ [32; 61; 32]%N ++ line_text els)
+    with (lf ++ sp 4 ++ 46%N :: aid ++ sp 1 ++ 61%N :: sp 1 ++ line_text els) by reflexivity.
+  apply (atl aid els lf 3 1 (sp 1 ++ line_text els)); [left; reflexivity | apply vl_inline, (line_text_layout els false)].
+  apply simple_pattern_elements, Hp.
 Qed.
 
 Lemma comment_text_layout P ls : ls <> [] -> exists C, comment_text P ls = C ++ lf /\ comment_layout P ls C.
@@ -372,18 +571,18 @@ Proof.
         exists C; rewrite EC; split; [rewrite <- !app_assoc; reflexivity | constructor; exact HC]).
   all: apply andb_prop in He as [He Hattrs]; apply andb_prop in He as [_ Hp];
     cbn [lead_of trail is_comment_entry app]; rewrite ?app_nil_r.
-  - destruct (simple_pattern_spec p Hp) as [v [-> Hv]]. cbn [simple_entry_text].
-    exists (id ++ sp 1 ++ 61%N :: (sp 1 ++ v) ++ attrs_text attrs). split.
+  - destruct (simple_pattern_spec p Hp) as [els [-> Hv]]. cbn [simple_entry_text].
+    exists (id ++ sp 1 ++ 61%N :: (sp 1 ++ line_text els) ++ attrs_text attrs). split.
     + unfold lf. cbn [sp repeat]. norm_app. reflexivity.
-    + apply el_message; [apply vl_inline | apply attrs_text_layout, Hattrs].
+    + apply el_message; [apply vl_inline, (line_text_layout els false), simple_pattern_elements, Hv | apply attrs_text_layout, Hattrs].
   - cbn [simple_entry_text].
     exists (id ++ sp 1 ++ 61%N :: attrs_text attrs). split.
     + unfold lf. cbn [sp repeat]. norm_app. reflexivity.
     + apply el_message_novalue; [|apply attrs_text_layout, Hattrs]. destruct attrs; [discriminate Hp | discriminate].
-  - destruct (simple_pattern_spec p Hp) as [v [-> Hv]]. cbn [simple_entry_text].
-    exists (45%N :: id ++ sp 1 ++ 61%N :: (sp 1 ++ v) ++ attrs_text attrs). split.
+  - destruct (simple_pattern_spec p Hp) as [els [-> Hv]]. cbn [simple_entry_text].
+    exists (45%N :: id ++ sp 1 ++ 61%N :: (sp 1 ++ line_text els) ++ attrs_text attrs). split.
     + unfold lf. cbn [sp repeat]. norm_app. reflexivity.
-    + apply el_term; [apply vl_inline | apply attrs_text_layout, Hattrs].
+    + apply el_term; [apply vl_inline, (line_text_layout els false), simple_pattern_elements, Hv | apply attrs_text_layout, Hattrs].
 Qed.
 
 Definition lead_of_list (wrote : bool) (t : resource) : bytes :=
